@@ -205,7 +205,7 @@ def worker(ctx):
         run_unit(ctx, unit)
         st.count("units")
         if i < 1 and ctx.idx < 2:
-            st.sample({"args": unit["args"], "input": unit["input"][:200].decode()})
+            st.sample({"args": unit["args"], "input": unit["input"][:200].decode("utf-8", "replace")})
 
 
 def run(env):
